@@ -259,7 +259,7 @@ func (t *ArrayTupleOfValue) ConcatVal(other Value) (Value, Value) {
 			newArrayTuple = append(newArrayTuple, *o...)
 			return Ref(&newArrayTuple), Undefined
 		case ArrayList:
-			newArrayTuple := make(ArrayListOfValue, len(*t), len(*t)+o.Length())
+			newArrayTuple := make(ArrayListOfValue, len(*t)+o.Length())
 			copy(newArrayTuple, *t)
 
 			for i, element := range o.Elements() {
@@ -306,6 +306,10 @@ func (t *ArrayTupleOfValue) Repeat(other Value) (*ArrayTupleOfValue, Value) {
 				"arrayTuple repeat count is too large %s",
 				o.Inspect(),
 			))
+		}
+		if newLen == 0 {
+			// nothing to copy, do not spin `o` times
+			return &ArrayTupleOfValue{}, Undefined
 		}
 		newArrayTuple := make(ArrayTupleOfValue, 0, newLen)
 		for i := 0; i < int(o); i++ {
@@ -459,7 +463,7 @@ func (t *ArrayTupleOfValueIterator) NextValue() (Value, Value) {
 
 func (t *ArrayTupleOfValueIterator) Elements() iter.Seq[Value] {
 	return func(yield func(Value) bool) {
-		for ; t.Index >= t.ArrayTuple.Length(); t.Index++ {
+		for ; t.Index < t.ArrayTuple.Length(); t.Index++ {
 			if !yield((*t.ArrayTuple)[t.Index]) {
 				return
 			}
